@@ -2688,3 +2688,100 @@ func (x *FnIndex) iterForm(fn *ssa.Function, v ssa.Value) (l *Loop, base, count 
 	}
 	return nil, linform{}, linform{}, false
 }
+
+// reachUnderSentinel explores the instructions reachable from `from` when the
+// error value (isErr) is a given sentinel ("BREAKFLAG", "CONTINUEFLAG", or
+// "nil"): every comparison of the error with one of the two package sentinels
+// or with nil takes its determined edge (the sentinels are distinct non-nil
+// values, S5), all other branches both. stop ends a path. It returns the
+// reached instructions, so that "a break never reaches the step" holds however
+// the tests are arranged (one combined test, a helper, a switch).
+func (x *FnIndex) reachUnderSentinel(fn *ssa.Function, from ssa.Instruction, isErr func(ssa.Value) bool, which string, stop func(ssa.Instruction) bool) map[ssa.Instruction]bool {
+	sentinelOf := func(v ssa.Value) string {
+		v = x.Origin(v)
+		if c, ok := v.(*ssa.Const); ok && c.IsNil() {
+			return "nil"
+		}
+		if u, ok := v.(*ssa.UnOp); ok && u.Op == token.MUL {
+			if g, ok := u.X.(*ssa.Global); ok && (g.Name() == "BREAKFLAG" || g.Name() == "CONTINUEFLAG") {
+				return g.Name()
+			}
+		}
+		return ""
+	}
+	var eval func(v ssa.Value, d int) (bool, bool)
+	eval = func(v ssa.Value, d int) (bool, bool) {
+		if d > 6 {
+			return false, false
+		}
+		v = x.Origin(v)
+		switch t := v.(type) {
+		case *ssa.Const:
+			return constBool(t)
+		case *ssa.UnOp:
+			if t.Op == token.NOT {
+				if b, ok := eval(t.X, d+1); ok {
+					return !b, true
+				}
+			}
+		case *ssa.BinOp:
+			if t.Op != token.EQL && t.Op != token.NEQ {
+				return false, false
+			}
+			other := ""
+			switch {
+			case isErr(t.X):
+				other = sentinelOf(t.Y)
+			case isErr(t.Y):
+				other = sentinelOf(t.X)
+			}
+			if other == "" {
+				return false, false
+			}
+			return (other == which) == (t.Op == token.EQL), true
+		}
+		return false, false
+	}
+	reached := map[ssa.Instruction]bool{}
+	type pt struct {
+		b *ssa.BasicBlock
+		i int
+	}
+	seen := map[*ssa.BasicBlock]bool{}
+	work := []pt{{from.Block(), instrIdx(from) + 1}}
+	for len(work) > 0 {
+		p := work[len(work)-1]
+		work = work[:len(work)-1]
+		stopped := false
+		for i := p.i; i < len(p.b.Instrs); i++ {
+			in := p.b.Instrs[i]
+			reached[in] = true
+			if stop != nil && stop(in) {
+				stopped = true
+				break
+			}
+		}
+		if stopped {
+			continue
+		}
+		only := -1
+		if iff, ok := p.b.Instrs[len(p.b.Instrs)-1].(*ssa.If); ok && len(p.b.Succs) == 2 {
+			if v, known := eval(iff.Cond, 0); known {
+				only = 1
+				if v {
+					only = 0
+				}
+			}
+		}
+		for k, sc := range p.b.Succs {
+			if only >= 0 && k != only {
+				continue
+			}
+			if !seen[sc] {
+				seen[sc] = true
+				work = append(work, pt{sc, 0})
+			}
+		}
+	}
+	return reached
+}
